@@ -15,6 +15,7 @@ let rec int_of_pos = function
   | M.XH -> 1 | M.XO p -> 2 * int_of_pos p | M.XI p -> 2 * int_of_pos p + 1
 let int_of_n = function M.N0 -> 0 | M.Npos p -> int_of_pos p
 let rec nat_of_int i = if i = 0 then M.O else M.S (nat_of_int (i - 1))
+let rec int_of_nat = function M.O -> 0 | M.S n -> 1 + int_of_nat n
 
 let n10 = n_of_int 10
 (* decimal string -> N (arbitrary size) *)
@@ -385,6 +386,127 @@ let run_case (toks : sx list) : string =
       let fl = M.host_from_little wn v and tl = M.host_to_little wn v and fb = M.host_from_big wn v and tb = M.host_to_big wn v in
       Printf.sprintf "fl=%s tl=%s fb=%s tb=%s rtb=%s rtl=%s" (string_of_n fl) (string_of_n tl) (string_of_n fb) (string_of_n tb)
         (string_of_n (M.host_to_big wn fb)) (string_of_n (M.host_from_little wn tl))
+  (* object state machines: opt / ent / res / sta / var / uh OPS *)
+  | [A ("opt" | "ent"); A ops] ->
+      let ops = String.split_on_char ',' ops in
+      let arg s = List.map int_of_string (String.split_on_char ':' (String.sub s 1 (String.length s - 1))) in
+      let parse s : M.oop option =
+        let a = arg s in let i = nat_of_int (List.nth a 0) in
+        let x () = z_of_int (List.nth a 1) and j () = nat_of_int (List.nth a 1) in
+        match s.[0] with
+        | 'N' -> Some (M.ONew i) | 'V' -> Some (M.OVal (i, x ())) | 'M' -> Some (M.OMoveVal (i, x ()))
+        | 'I' -> Some (M.OInPlace (i, x ())) | 'C' -> Some (M.OCopy (i, j ())) | 'X' -> Some (M.OMove (i, j ()))
+        | 'D' -> Some (M.ODestroy i) | 'a' -> Some (M.OAssign (i, j ())) | 'm' -> Some (M.OMoveAssign (i, j ()))
+        | 'v' -> Some (M.OSetVal (i, x ())) | 'w' -> Some (M.OSetMoveVal (i, x ())) | 'u' -> Some (M.OSetConv (i, x ()))
+        | 'e' -> Some (M.OSetConvEmpty i) | 'c' -> Some (M.OClear i) | 't' -> Some (M.OTake i) | _ -> None in
+      let head (st : M.stats) = Printf.sprintf "%d:%d:%d" (int_of_nat st.M.ctor) (int_of_nat st.M.dtor) (int_of_nat st.M.bad) in
+      let dump (w : M.oworld) = String.concat ";" (List.map (function
+          | None -> "X"
+          | Some o -> if o.M.o_empty then "E" else (match o.M.o_slot with M.Alive v -> "S" ^ string_of_z v | M.Dead -> "DEAD")) w.M.o_objs) in
+      let w = ref (M.o_init (nat_of_int 3)) in
+      let outs = List.map (fun s ->
+          match parse s with
+          | None -> "skip " ^ head !w.M.o_st ^ "|" ^ dump !w
+          | Some op -> let ok = M.o_pre !w op in w := M.o_step !w op;
+              (if ok then "" else "skip ") ^ head !w.M.o_st ^ "|" ^ dump !w) ops in
+      List.iter (fun i -> w := M.o_step !w (M.ODestroy (nat_of_int i))) [0; 1; 2];
+      String.concat " " outs ^ " end=" ^ head !w.M.o_st
+  | [A (("res" | "sta") as kind); A ops] ->
+      let ops = String.split_on_char ',' ops in
+      let arg s = List.map int_of_string (String.split_on_char ':' (String.sub s 1 (String.length s - 1))) in
+      (* Status<T> declares no assignment from a value or an error: `status = x` builds a temporary
+         Status from x, move-assigns from it and destroys it.  The temporary is object 3 of the model. *)
+      let sta = (kind = "sta") in
+      let tmp = nat_of_int 3 in
+      let parse s : M.rop list option =
+        let a = arg s in let i = nat_of_int (List.nth a 0) in
+        let x () = z_of_int (List.nth a 1) and j () = nat_of_int (List.nth a 1) in
+        match s.[0] with
+        | 'N' -> Some [M.RNew i] | 'V' -> Some [M.RVal (i, x ())] | 'M' -> Some [M.RMoveVal (i, x ())] | 'E' -> Some [M.RErr (i, x ())]
+        | 'C' -> Some [M.RCopy (i, j ())] | 'X' -> Some [M.RMove (i, j ())] | 'D' -> Some [M.RDestroy i]
+        | 'a' -> Some [M.RAssign (i, j ())] | 'm' -> Some [M.RMoveAssign (i, j ())]
+        | 'v' -> Some (if sta then [M.RVal (tmp, x ()); M.RMoveAssign (i, tmp); M.RDestroy tmp] else [M.RSetVal (i, x ())])
+        | 'w' -> Some (if sta then [M.RMoveVal (tmp, x ()); M.RMoveAssign (i, tmp); M.RDestroy tmp] else [M.RSetMoveVal (i, x ())])
+        | 'r' -> Some (if sta then [M.RErr (tmp, x ()); M.RMoveAssign (i, tmp); M.RDestroy tmp] else [M.RSetErr (i, x ())])
+        | 'c' -> Some [M.RClear i] | 't' -> Some [M.RTake i] | _ -> None in
+      let head (st : M.stats) = Printf.sprintf "%d:%d:%d" (int_of_nat st.M.ctor) (int_of_nat st.M.dtor) (int_of_nat st.M.bad) in
+      let first3 l = match l with a :: b :: c :: _ -> [a; b; c] | _ -> l in
+      let dump (w : M.rworld) = String.concat ";" (List.map (function
+          | None -> "X"
+          | Some r -> (match r.M.r_tag with
+                       | M.RtEmpty -> "E" | M.RtError e -> "R" ^ string_of_z e
+                       | M.RtValue -> (match r.M.r_slot with M.Alive v -> "V" ^ string_of_z v | M.Dead -> "DEAD"))) (first3 w.M.r_objs)) in
+      let w = ref (M.r_init (nat_of_int 4)) in
+      let live i = (match M.r_get !w i with Some _ -> true | None -> false) in
+      let outs = List.map (fun s ->
+          match parse s with
+          | None -> "skip " ^ head !w.M.r_stt ^ "|" ^ dump !w
+          | Some [op] -> let ok = M.r_pre !w op in w := M.r_step !w op;
+              (if ok then "" else "skip ") ^ head !w.M.r_stt ^ "|" ^ dump !w
+          | Some comp ->
+              (* composite: applies when the target object is alive *)
+              let ok = (match comp with _ :: M.RMoveAssign (i, _) :: _ -> live i | _ -> false) in
+              if ok then List.iter (fun op -> w := M.r_step !w op) comp;
+              (if ok then "" else "skip ") ^ head !w.M.r_stt ^ "|" ^ dump !w) ops in
+      List.iter (fun i -> w := M.r_step !w (M.RDestroy (nat_of_int i))) [0; 1; 2];
+      String.concat " " outs ^ " end=" ^ head !w.M.r_stt
+  | [A "var"; A ops] ->
+      let ops = String.split_on_char ',' ops in
+      let arg s = List.map int_of_string (String.split_on_char ':' (String.sub s 1 (String.length s - 1))) in
+      let parse s : M.vop option =
+        let a = arg s in let i = nat_of_int (List.nth a 0) in
+        let k () = z_of_int (List.nth a 1) and j () = nat_of_int (List.nth a 1) in
+        let x () = z_of_int (List.nth a 2) and t () = (List.nth a 3 = 1) in
+        match s.[0] with
+        | 'N' -> Some (M.VNew i) | 'V' -> Some (M.VVal (i, k (), x (), t ())) | 'C' -> Some (M.VCopy (i, j ()))
+        | 'X' -> Some (M.VMove (i, j ())) | 'D' -> Some (M.VDestroy i) | 's' -> Some (M.VSet (i, k (), x (), t ()))
+        | 'e' -> Some (M.VSetEmpty i) | 'a' -> Some (M.VAssign (i, j ())) | 'm' -> Some (M.VMoveAssign (i, j ()))
+        | 'B' -> Some (M.VBecome (i, k ())) | _ -> None in
+      let head (st : M.stats) = Printf.sprintf "%d:%d:%d" (int_of_nat st.M.ctor) (int_of_nat st.M.dtor) (int_of_nat st.M.bad) in
+      let dump (w : M.vworld) = String.concat ";" (List.map (function
+          | None -> "X"
+          | Some v -> if v.M.v_index = z_of_int (-1) then "E"
+                      else (match v.M.v_slot with M.Alive x -> "A" ^ string_of_z v.M.v_index ^ ":" ^ string_of_z x | M.Dead -> "DEAD")) w.M.v_objs) in
+      let w = ref (M.v_init (nat_of_int 3) (z_of_int 3)) in
+      let outs = List.map (fun s ->
+          match parse s with
+          | None -> "skip " ^ head !w.M.v_stt ^ "|" ^ dump !w
+          | Some op -> let ok = M.v_pre !w op in w := M.v_step !w op;
+              (if ok then "" else "skip ") ^ head !w.M.v_stt ^ "|" ^ dump !w) ops in
+      List.iter (fun i -> w := M.v_step !w (M.VDestroy (nat_of_int i))) [0; 1; 2];
+      String.concat " " outs ^ " end=" ^ head !w.M.v_stt
+  | [A "uh"; A ops] ->
+      let ops = String.split_on_char ',' ops in
+      let arg s = List.map int_of_string (String.split_on_char ':' (String.sub s 1 (String.length s - 1))) in
+      let parse s : M.hop option =
+        let a = arg s in let i = nat_of_int (List.nth a 0) in
+        let x () = z_of_int (List.nth a 1) and j () = nat_of_int (List.nth a 1) in
+        match s.[0] with
+        | 'N' -> Some (M.HNew i) | 'V' -> Some (M.HVal (i, x ())) | 'X' -> Some (M.HMove (i, j ())) | 'D' -> Some (M.HDestroy i)
+        | 'm' -> Some (M.HMoveAssign (i, j ())) | 'c' -> Some (M.HClose i) | 'r' -> Some (M.HRelease i) | _ -> None in
+      let lst l = if l = [] then "-" else String.concat "," (List.rev_map string_of_z l) in
+      let dump (w : M.hworld) = String.concat ";" (List.map (function None -> "X" | Some v -> string_of_z v) w.M.h_objs)
+                                ^ "|" ^ lst w.M.h_closed ^ "|" ^ lst w.M.h_released in
+      let w = ref (M.h_init (nat_of_int 3)) in
+      let outs = List.map (fun s ->
+          match parse s with
+          | None -> "skip " ^ dump !w
+          | Some op -> let ok = M.h_pre !w op in w := M.h_step !w op; (if ok then "" else "skip ") ^ dump !w) ops in
+      List.iter (fun i -> w := M.h_step !w (M.HDestroy (nat_of_int i))) [0; 1; 2];
+      String.concat " " outs ^ " end=" ^ lst !w.M.h_closed ^ "|" ^ lst !w.M.h_released
+  | [A "cmp"] ->
+      let st = [-1; 0; 1; 2] in
+      let opt i = if i < 0 then None else Some (z_of_int i) in
+      let b x = if x then "1" else "0" in
+      let eqb = M.Z.eqb and ltb = M.Z.ltb in
+      "cmp=" ^ String.concat "," (List.concat_map (fun a -> List.map (fun bb ->
+          let oa = opt a and ob = opt bb in
+          let oo = b (M.oo_eq eqb oa ob) ^ b (M.oo_ne eqb oa ob) ^ b (M.oo_lt ltb oa ob) ^ b (M.oo_gt ltb oa ob) ^ b (M.oo_le ltb oa ob) ^ b (M.oo_ge ltb oa ob) in
+          let ov = if bb < 0 then "------" else let v = z_of_int bb in
+              b (M.ov_eq eqb oa v) ^ b (M.ov_ne eqb oa v) ^ b (M.ov_lt ltb oa v) ^ b (M.ov_gt ltb oa v) ^ b (M.ov_le ltb oa v) ^ b (M.ov_ge ltb oa v) in
+          let vo = if a < 0 then "------" else let v = z_of_int a in
+              b (M.vo_eq eqb v ob) ^ b (M.vo_ne eqb v ob) ^ b (M.vo_lt ltb v ob) ^ b (M.vo_gt ltb v ob) ^ b (M.vo_le ltb v ob) ^ b (M.vo_ge ltb v ob) in
+          Printf.sprintf "%d/%d=%s%s%s" a bb oo ov vo) st) st)
   (* fungrow T: model IsFungible<T, Tj> for every pool type Tj in pool order *)
   | [A "fungrow"; A tid] ->
       let t = ty_named tid in
